@@ -134,35 +134,91 @@ def _paths(stmts: List[ast.stmt], is_c: bool) -> Set[Tuple[int, ...]]:
 
 @rule("F1", "per block class, the brackets and #if/#endif it pushes balance on every path")
 def f1(repo: Repo) -> RuleResult:
+    from .emit import FORMATTERS, block_flow
+    from .normal import V as _V
+    from .normal import show as _show
+    from .pyflow import tpl_shape
+
     res = RuleResult("F1", floor=60)
     m = get_model(repo)
     block = m.cls("Block", "renderer/block.py")
+    zero = (0, 0, 0, 0)
+
+    def add(a: Tuple[int, ...], b: Tuple[int, ...]) -> Tuple[int, ...]:
+        return tuple(x + y for x, y in zip(a, b))
+
+    def path_vec(p_: Any, is_c: bool) -> Tuple[int, ...]:
+        v = zero
+        for e in p_.effects:
+            if e.kind == "call" and e.name in ("push", "push_string") and e.args:
+                t = tpl_shape(e.args[0], lambda x: "")  # holes are other blocks' / formatters' business
+                if t is not None:
+                    v = add(v, _vec(t, is_c))
+            elif e.kind == "loop":
+                # literal brackets inside a loop must balance per iteration; an unbalanced body counts once
+                for sp in e.sub or []:
+                    sv = path_vec(sp, is_c)
+                    if sv != zero:
+                        v = add(v, sv)
+        return v
+
     for mod in m.mods.values():
         if "/renderer/impls/" not in mod.rel:
             continue
+        relsfx = mod.rel.split("/renderer/")[-1]
+        if relsfx not in FORMATTERS:
+            continue
+        fcn, frel = FORMATTERS[relsfx]
         is_c = "/impls/c/" in mod.rel
         part = "c" if is_c else ("go" if "/impls/go/" in mod.rel else "py")
+        fkeep = tuple(sorted({n for k_ in m.mro(m.cls(fcn, frel)) for n in k_.methods if n.startswith(("format_", "formart_"))}))
         for c in mod.classes.values():
             if not m.is_subclass(c, block):
                 continue
-            total: Set[Tuple[int, ...]] = {(0, 0, 0, 0)}
-            pushed = False
-            for meth in ("before", "render", "render_enum_type", "after", "defer"):
-                f = c.methods.get(meth)
-                if f is None:
-                    continue
-                ps = _paths(f.node.body, is_c)
-                # include nested helper functions (le()/be()) called inside
-                for n in ast.walk(f.node):
-                    if isinstance(n, ast.FunctionDef) and n is not f.node:
-                        pass
-                if ps != {(0, 0, 0, 0)}:
-                    pushed = True
-                total = {tuple(a + b for a, b in zip(t, p)) for t in total for p in ps}
-            if not any(meth in c.methods for meth in ("before", "render", "after", "defer")):
+            meths = [(meth, m.lookup(c, meth)) for meth in ("before", "render", "render_enum_type", "after", "defer")]
+            meths = [(n_, f_) for n_, f_ in meths if f_ is not None and f_.cls is not None and "/renderer/impls/" in f_.cls.rel]
+            if not any(n_ in ("before", "render", "after", "defer") for n_, _ in meths):
                 continue
+            # (guards, vector) per path and method; paths of different methods combine when their conditions agree
+            combos: List[Tuple[Dict[str, bool], Tuple[int, ...]]] = [({}, zero)]
+            try:
+                flow = block_flow(repo, c.name, relsfx, fcn, frel, {}, keep=fkeep)
+                for n_, f_ in meths:
+                    if n_ == "render_enum_type" and any(isinstance(x, ast.Call) and isinstance(x.func, ast.Attribute) and x.func.attr == "render_enum_type" for mm_, ff_ in meths if mm_ != n_ for x in ast.walk(ff_.node)):
+                        continue  # reached through render
+                    ps = [p_ for p_ in flow.run(f_.node, {"self": _V("self")}) if p_.done != "raise"]
+                    per = []
+                    for p_ in ps:
+                        g = {}
+                        for k_, t_ in p_.guards:
+                            g[str((k_[0],) + tuple(_show(x) if hasattr(x, "terms") else str(x) for x in k_[1:]))] = t_
+                        per.append((g, path_vec(p_, is_c)))
+                    if len({v_ for _, v_ in per}) <= 1:
+                        per = [({}, per[0][1])] if per else []  # the conditions do not matter for the balance
+                    nxt = []
+                    for g0, v0 in combos:
+                        for g1, v1 in per:
+                            if any(k_ in g0 and g0[k_] != t_ for k_, t_ in g1.items()):
+                                continue
+                            gg = dict(g0)
+                            gg.update(g1)
+                            nxt.append((gg, add(v0, v1)))
+                    # keep the table small: one entry per (vector, guards) is enough
+                    seen_ = set()
+                    combos = []
+                    for gg, vv in nxt:
+                        key = (tuple(sorted(gg.items())), vv)
+                        if key not in seen_:
+                            seen_.add(key)
+                            combos.append((gg, vv))
+                    if len(combos) > 400:
+                        raise Inconclusive("too many path combinations")
+            except Inconclusive as e:
+                res.unsure(f"F1: {c.name}: {e}")
+                continue
+            total = {vv for _, vv in combos}
             res.inst(part=part, cls=c.name, vectors=sorted(total)[:4])
-            if total != {(0, 0, 0, 0)}:
+            if total != {zero}:
                 worst = sorted(total, key=lambda v: sum(abs(x) for x in v))[-1]
                 names = ["{ }", "( )", "[ ]", "#if/#endif"]
                 what = ", ".join(f"{names[i]}: {worst[i]:+d}" for i in range(4) if worst[i])
@@ -268,33 +324,58 @@ def f2(repo: Repo) -> RuleResult:
 # --------------------------------------------------------------------------
 
 
+def c_name_templates(repo: Repo) -> List[Tuple[str, list]]:
+    """(method, segments) for every text a CFormatter helper-name method can return, from the path
+    engine: segments are ('lit', text) | ('name', provenance) | ('num', provenance); private helpers and
+    the constant prefixes are seen through, `format_*` calls stay holes."""
+    from .emit import formatter_returns
+
+    m = get_model(repo)
+    cf = m.cls("CFormatter", "impls/c/formatter.py")
+    out: List[Tuple[str, list]] = []
+    for name in sorted(cf.methods):
+        if not (name.startswith("format_bp_") and name.endswith(("_name", "_name_from_message_field", "_name_from_alias", "_initer"))):
+            continue
+        for text in formatter_returns(repo, "impls/c/formatter.py", "CFormatter", name, braces=True, inline=lambda n_: n_.startswith(("format_bp_", "bp_")) or not n_.startswith("format_")):
+            segs: list = []
+            i = 0
+            while i < len(text):
+                if text[i] == "{":
+                    depth, j = 1, i + 1
+                    while j < len(text) and depth:
+                        depth += {"{": 1, "}": -1}.get(text[j], 0)
+                        j += 1
+                    hole = text[i + 1 : j - 1]
+                    segs.append(("num" if hole.endswith(".number") or "number" in hole.split(".")[-1] else "name", hole))
+                    i = j
+                else:
+                    j = text.find("{", i)
+                    j = len(text) if j < 0 else j
+                    segs.append(("lit", text[i:j]))
+                    i = j
+            if (name, segs) not in out:
+                out.append((name, segs))
+    return out
+
+
 @rule("F6", "internal helper-name templates are uniquely decodable: adjacent variable parts are separated")
 def f6(repo: Repo) -> RuleResult:
     res = RuleResult("F6", floor=4)
     m = get_model(repo)
     cf = m.cls("CFormatter", "impls/c/formatter.py")
-    for name, f in cf.methods.items():
-        if not (name.startswith("format_bp_") and name.endswith(("_name", "_name_from_message_field", "_name_from_alias", "_initer"))):
-            continue
-        for n in ast.walk(f.node):
-            if isinstance(n, ast.JoinedStr):
-                holes = []
-                prev_hole = None
-                for v in n.values:
-                    if isinstance(v, ast.FormattedValue):
-                        if prev_hole is not None:
-                            holes.append((prev_hole, src_of(v.value)))
-                        prev_hole = src_of(v.value)
-                    elif isinstance(v, ast.Constant) and v.value:
-                        prev_hole = None
-                shape = _fstring_shape(n)
-                res.inst(function=f"CFormatter.{name}", template=shape, adjacent=holes)
-                for a, b in holes:
-                    if a in ("prefix",):
-                        continue  # constant per kind
-                    # a name followed directly by a number: names may end in digits
-                    if "number" in b or "name" in b:
-                        res.bad(Finding("F6", f.rel, f.node.lineno, f"CFormatter.{name}", shape, f"`{a}` and `{b}` are concatenated without a separator: two different (name, number) pairs can give the same helper name", witness="message A1 { byte[2] x = 2 } and message A { byte[2] y = 12 }: two functions BpXXXProcessArrayA12", tag=f"{name}:{a}+{b}"))
+    try:
+        templates = c_name_templates(repo)
+    except Inconclusive as e:
+        res.unsure(f"F6: {e}")
+        return res
+    for name, segs in templates:
+        f = cf.methods[name]
+        shape = "".join(v if k == "lit" else "{" + v + "}" for k, v in segs)
+        holes = [(segs[i][1], segs[i + 1][1]) for i in range(len(segs) - 1) if segs[i][0] != "lit" and segs[i + 1][0] != "lit"]
+        res.inst(function=f"CFormatter.{name}", template=shape, adjacent=holes)
+        for a, b in holes:
+            # a name followed directly by a number or another name: names may end in digits
+            res.bad(Finding("F6", f.rel, f.node.lineno, f"CFormatter.{name}", shape, f"`{a}` and `{b}` are concatenated without a separator: two different (name, number) pairs can give the same C function name", witness="message M1 { byte[2] a = 1 } and message M { byte[2] a = 11 }", tag=f"{name}:adjacent"))
     return res
 
 
@@ -320,40 +401,21 @@ def f6b(repo: Repo) -> RuleResult:
     res = RuleResult("F6b", floor=6)
     m = get_model(repo)
     cf = m.cls("CFormatter", "impls/c/formatter.py")
-    prefixes = {}
-    for nm in ("bp_processor_name_prefix", "bp_json_formatter_name_prefix"):
-        f = cf.methods.get(nm)
-        v = [n.value.value for n in ast.walk(f.node) if isinstance(n, ast.Return) and isinstance(n.value, ast.Constant)] if f else []
-        if len(v) == 1:
-            prefixes[nm] = v[0]
+    try:
+        raw = c_name_templates(repo)
+    except Inconclusive as e:
+        res.unsure(f"F6b: {e}")
+        return res
     templates = []
-    for name, f in cf.methods.items():
-        if not (name.startswith("format_bp_") and name.endswith(("_name", "_name_from_message_field", "_name_from_alias", "_initer"))):
-            continue
-        loc = {n.targets[0].id: src_of(n.value) for n in ast.walk(f.node) if isinstance(n, ast.Assign) and isinstance(n.targets[0], ast.Name)}
-        for n in ast.walk(f.node):
-            if isinstance(n, ast.Return) and isinstance(n.value, ast.JoinedStr):
-                segs = []
-                for kind, val in _segments(_fstring_shape(n.value)):
-                    if kind == "hole" and val == "prefix":
-                        src = loc.get("prefix", "")
-                        lit = next((v for k, v in prefixes.items() if k in src), None)
-                        if lit is None:
-                            segs.append(("hole", "prefix?"))
-                        else:
-                            segs.append(("lit", lit))
-                    elif kind == "hole":
-                        segs.append(("num" if "number" in val else "name", val))
-                    else:
-                        segs.append((kind, val))
-                # merge adjacent literals
-                merged = []
-                for sg in segs:
-                    if merged and sg[0] == "lit" and merged[-1][0] == "lit":
-                        merged[-1] = ("lit", merged[-1][1] + sg[1])
-                    else:
-                        merged.append(sg)
-                templates.append((name, merged))
+    for name, segs in raw:
+        merged: list = []
+        for sg in segs:
+            if merged and sg[0] == "lit" and merged[-1][0] == "lit":
+                merged[-1] = ("lit", merged[-1][1] + sg[1])
+            else:
+                merged.append(sg)
+        if (name, merged) not in templates:
+            templates.append((name, merged))
     res.note("templates: " + "; ".join(f"{n}: {''.join(v if k == 'lit' else '<' + k + '>' for k, v in t)}" for n, t in templates))
     NAME_ALPHA = re.compile(r"^[A-Za-z0-9]*$")  # C definition names are pascal cased: no underscore
 
@@ -434,7 +496,11 @@ def f7(repo: Repo) -> RuleResult:
     # the including side uses format_out_filename of the bound proto for its own header
     inc = m.func("impls/c/renderer_c.py", "BlockInclude.render")
     res.inst(part="c", function=inc.qual)
-    if "header_filename = self.formatter.format_out_filename(self.bound, extension='.h')" not in src_of(inc.node):
+    from .emit import class_emissions as _ce
+
+    own = [l_ for l_ in _ce(repo, "impls/c/renderer_c.py", named="plain").get("BlockInclude", []) if l_.startswith("#include")]
+    res.inst(part="c", function=inc.qual, includes=own)
+    if not any(re.fullmatch(r"#include \"self\.formatter\.format_out_filename\(self\.bound, (extension=)?'\.h'\)\"", l_) for l_ in own):
         fd = Finding("F7", inc.rel, inc.node.lineno, inc.qual, "", "the C source does not include its own header by the generated file name", tag="c:own-header")
         fd.part = "c"
         res.bad(fd)
